@@ -1,21 +1,24 @@
-"""C13 - time-domain programs (tdm/program.py).  Proved: shift_by is the cyclic rotation for every list length and
-shift.  Everything else is a BOUNDED stand-in (native/c13_tdm.py): the unrolling machinery builds real Program objects
-command by command through Program.append and the sample arrangement is a property of a whole engine run."""
+"""C13 - time-domain programs (tdm/program.py).  Proved: shift_by; the typestate of roll / unroll / space_unroll over all
+call histories.  Shape-bounded contracts: the loop emitted by _unroll_program / apply_op, the arrangement of outcomes by
+reshape_samples / _get_mode_order.  Joint states and engine runs: BOUNDED stand-in (native/c13_tdm.py)."""
 import z3
 from pyvc.api import *
 
 T = "strawberryfields.tdm.program"
 
 level("C13", "other",
-      "Proved: shift_by(l, n) is the cyclic left rotation by n (result[i] = l[(i+n) mod len]) for lists of arbitrary length. "
-      "Bounded stand-in: (a) entry (shot, band, time bin) of Result.samples identifies exactly that pulse (pulses carry "
-      "identifying displacements) for N in [1],[2],[3],[1,1],[2,1],[1,2],[8,2], bands measured in either order, 2/3/5 bins, 1-2 "
-      "shots; (b) register-shifting unrolling == hand-written fresh-mode loop (conditional state of the in-flight modes under "
-      "the same post-selected outcomes) and space-unrolling == hand-written loop (joint state of all pulses), N=2,3, 2-4 bins, "
-      "with and without daggered gates; (c) every sequence of unroll/space_unroll/roll/lock calls up to length 3 (quick) / 4: "
-      "roll restores circuit and register, locked flag preserved (also on refusals), program still runs; (d) inverse flag and "
-      "select survive unrolling. F17, F18, F33 found and repaired; F16, F32, F41 are open findings.",
-      trusted=[])
+      "Proved for all values: shift_by(l, n) is the cyclic left rotation for lists of arbitrary length; roll / unroll / "
+      "space_unroll re-establish the representation invariant of the program (rolled | unrolled(k) | space-unrolled(k)) from an "
+      "ARBITRARY state satisfying it (symbolic register size, time bins, shots, added modes), hence after every call history: "
+      "roll restores circuit and register exactly, the circuit is the unrolling of the requested kind for the requested shots, "
+      "refused calls change nothing, the locked flag survives. Shape-bounded (layouts and small counts enumerated, per-bin values "
+      "symbolic): _unroll_program + apply_op emit the explicit loop; reshape_samples arranges the outcome of pulse (shot, band, "
+      "bin) at that entry. Bounded stand-in: (a) entry (shot, band, time bin) of Result.samples identifies exactly that pulse "
+      "(identifying displacements) for N in [1],[2],[3],[1,1],[2,1],[1,2],[8,2], bands measured in either order, 2/3/5 bins, 1-2 "
+      "shots; (b) register-shifting unrolling == hand-written fresh-mode loop and space-unrolling == hand-written loop (joint "
+      "state), N=2,3, 2-4 bins, with and without daggered gates; (c) every sequence of unroll/space_unroll/roll/lock calls up to "
+      "length 3 (quick) / 4; (d) cropping, integer shifts. F17, F18, F33, F60 found and repaired; F16, F32, F41, F58 are open findings.",
+      trusted=["contracts of _unroll_program / _add_subsystems / _delete_subsystems used as stubs in the typestate proofs (the first is itself under contract at enumerated shapes)"])
 
 native("C13", "c13_tdm", "native/c13_tdm.py", bound="see level text; Gaussian backend", timeout=900)
 
